@@ -52,6 +52,39 @@ class Out:
     def exception(self, key, reason):
         self.exceptions_used.append({"key": key, "reason": reason})
 
+    # -- a rule may be decided on any faithful reading of the code (as written / normalised view): it is
+    #    run on each in a trial outcome, and the first reading on which it holds is adopted
+    def trial(self):
+        return Out(self.prop)
+
+    def adopt(self, other):
+        for v in other.violations:
+            self.viol(v["rule"], v["key"], v["where"], v["msg"])
+        for r, d in other.rules.items():
+            self.rules[r] = d
+        self.notes.extend(other.notes)
+        self.exceptions_used.extend(other.exceptions_used)
+
+
+def on_any_view(out, views, fn):
+    """fn(view, trial_out). Adopts the outcome of the first view on which fn raises no violation;
+    if it fails on all of them, the outcome on the first view (the code as written) is reported."""
+    trials = []
+    for v in views:
+        if v is None:
+            continue
+        tr = out.trial()
+        fn(v, tr)
+        trials.append(tr)
+        if not tr.violations:
+            out.adopt(tr)
+            return tr
+    if trials:
+        out.adopt(trials[0])
+        return trials[0]
+    return None
+
+
 
 class Ctx:
     def __init__(self, prefix=None):
